@@ -48,13 +48,61 @@ def decodeRouteCfg (t : List String) : Option RouteCfg := do
     | none => some none
     | some s => (decodeDomRules s).map some
   let lhd ← boolOf (kvD t "lhdirect" "0")
-  let names ← bytesList (kvD t "localnames" "~")
+  -- `aliases=` (hosts-file aliases; the built-in names are the model's) wins over `localnames=`
+  let names ← match kv t "aliases" with
+    | some a => (bytesList a).map hpLocalhost
+    | none => bytesList (kvD t "localnames" "~")
   let ct ← (splitList2 (kvD t "connectto" "~")).mapM fun e =>
     match splitList e with
     | [a, b, c, d] => do
       some ({ srcHost := (← bytesOfHex a), srcPort := (← bytesOfHex b), dstHost := (← bytesOfHex c), dstPort := (← bytesOfHex d) } : HostPortPair)
     | _ => none
   some { base := base, directDomains := dd, localhostDirect := lhd, localhostNames := names, connectTo := ct }
+
+/-- conditions in prefix notation: `H,k` `h,pat` `G,pat` `P,p` `C,s` `N,<c>` `A,<a>,<b>` -/
+def parseCond : Nat → List String → Option (UrlCond × List String)
+  | 0, _ => none
+  | _ + 1, "H" :: k :: rest => do some (.hostIs (← bytesOfHex k), rest)
+  | _ + 1, "h" :: k :: rest => do some (.hostGlob (← bytesOfHex k), rest)
+  | _ + 1, "G" :: k :: rest => do some (.urlGlob (← bytesOfHex k), rest)
+  | _ + 1, "P" :: k :: rest => do some (.urlPrefix (← bytesOfHex k), rest)
+  | _ + 1, "C" :: k :: rest => do some (.urlContains (← bytesOfHex k), rest)
+  | n + 1, "N" :: rest => do
+    let (c, rest') ← parseCond n rest
+    some (.not c, rest')
+  | n + 1, "A" :: rest => do
+    let (a, r1) ← parseCond n rest
+    let (b, r2) ← parseCond n r1
+    some (.and a b, r2)
+  | _, _ => none
+
+/-- `pacrules=<cond…>,ok|fail[,str];…` in front of the host table (`pactable=`) and `pacdflt=` -/
+def decodeUrlScript (t : List String) : Option UrlScript := do
+  let rules ← (splitList2 (kvD t "pacrules" "~")).mapM fun e => do
+    let atoms := splitList e
+    let (c, rest) ← parseCond atoms.length atoms
+    some ({ cond := c, result := (← decodePacResult rest) } : UrlRule)
+  let tbl ← (splitList2 (kvD t "pactable" "~")).mapM fun e =>
+    match splitList e with
+    | h :: rest => do some ((← bytesOfHex h), (← decodePacResult rest))
+    | _ => none
+  let d ← decodePacResult (splitList (kvD t "pacdflt" "ok,_"))
+  let hostRules := (UrlScript.ofTable { table := tbl, dflt := d }).rules
+  some { rules := rules ++ hostRules, dflt := d }
+
+/-- `reqs=c|r,scheme,host,path,query|~;…` -/
+def decodeReqs (s : String) : Option (List RouteReq) :=
+  (splitList2 s).mapM fun e =>
+    match splitList e with
+    | [k, sc, h, p, q] => do
+      let conn ← match k with | "c" => some true | "r" => some false | _ => none
+      some { connect := conn, scheme := (← bytesOfHex sc), urlHost := (← bytesOfHex h), path := (← bytesOfHex p), query := (← optBytes q) }
+    | _ => none
+
+def encodePac : Option PacResult → String
+  | none => "none"
+  | some .fail => "fail"
+  | some (.ok s) => s!"ok {hexOfBytes s}"
 
 def errName : RouteError → String
   | .pacScript => "pac-script" | .pacEntry => "pac-entry" | .unsupportedScheme _ => "unsupported-scheme"
@@ -77,6 +125,32 @@ def handle : List String → String
       | "spec" => encodeRoute rc (routeRequestSpec rc sc h)
       | _ => "bad-op"
     | _, _, _ => "bad-op"
+  | "routeseq" :: toks =>
+    -- one proxy instance folded over the requests; per request `<route> @ <script answer> @ <url>`
+    match decodeRouteCfg toks, decodeReqs (kvD toks "reqs" "~") with
+    | some rc, some qs =>
+      let script? : Option (Option UrlScript) := match rc.base with
+        | .pac _ => (decodeUrlScript toks).map some
+        | _ => some none
+      match script? with
+      | none => "bad-op"
+      | some sc =>
+        if (sc.map UrlScript.modelled).getD true == false then "bad-op" else
+        let c : InstCfg := { rc := rc, script := sc }
+        let ds := runSeq c {} qs
+        let items := (qs.zip ds).map fun (q, d) => s!"{encodeRoute (c.at q) d} @ {encodePac (scriptAnswer c q)} @ {hexOfBytes q.url}"
+        s!"seq {ds.length} | " ++ " | ".intercalate items
+    | _, _ => "bad-op"
+  | ["glob", s, pat] =>
+    match bytesOfHex s, bytesOfHex pat with
+    | some b, some p => match C14.shExpMatch b p with
+      | some r => ofBool r
+      | none => "unmodelled"
+    | _, _ => "bad-op"
+  | ["islocalhost", al, h] =>
+    match bytesList al, bytesOfHex h with
+    | some a, some b => ofBool (isLocalhost a b)
+    | _, _ => "bad-op"
   | ["pac", s] =>
     match bytesOfHex s with
     | some b =>
